@@ -10,7 +10,7 @@ using sim::aux::packet;
 namespace {
 
 struct QCfg { int bw; int64_t lat; int cap; };
-struct Route { std::vector<QCfg> q; bool reflect; };
+struct Route { std::vector<QCfg> q; int reflect; /* 0 no, 1 the far end answers every data packet with an ACK through the same queue, 2 with a (droppable) data packet */ };
 
 struct Kind { packet::type_t type; int payload; int overhead; bool drop_fun; const char* name; };
 const Kind KINDS[] = {
@@ -31,16 +31,20 @@ std::vector<Route> make_routes(bool thorough)
 	int const bws[] = { 0, 1000, 1000000, 1000000000 };
 	int64_t const lats[] = { 0, 1000, 10000000, 10000000000ll };
 	int const caps[] = { 0, 50, 1500, 1501, 4000, 1000000 };
-	for (int bw : bws) for (int64_t lat : lats) for (int cap : caps) r.push_back(Route{ { QCfg{ bw, lat, cap } }, false });
+	for (int bw : bws) for (int64_t lat : lats) for (int cap : caps) r.push_back(Route{ { QCfg{ bw, lat, cap } }, 0 });
 	// re-entrant delivery: the far end answers every data packet synchronously with an ACK through the same queue
-	for (int bw : { 0, 1000000 }) for (int64_t lat : { int64_t(0), int64_t(10000000) }) for (int cap : { 0, 1501 }) r.push_back(Route{ { QCfg{ bw, lat, cap } }, true });
+	for (int bw : { 0, 1000000 }) for (int64_t lat : { int64_t(0), int64_t(10000000) }) for (int cap : { 0, 1501 }) r.push_back(Route{ { QCfg{ bw, lat, cap } }, 1 });
+	for (int bw : { 0, 1000000 }) for (int64_t lat : { int64_t(0), int64_t(10000000) }) for (int cap : { 1501, 1700, 3100 }) r.push_back(Route{ { QCfg{ bw, lat, cap } }, 2 });
+	// bandwidths that do not divide 10^9 (the per-byte time is not a whole number of nanoseconds)
+	for (int bw : { 7000, 300000, 600000000 }) for (int64_t lat : { int64_t(0), int64_t(10000000) }) for (int cap : { 0, 1501, 4000 }) r.push_back(Route{ { QCfg{ bw, lat, cap } }, 0 });
+	r.push_back(Route{ { QCfg{ 600000000, 1000, 0 }, QCfg{ 300000, 10000000, 4000 } }, 0 });
 	// two and three hops
 	for (int bw : { 0, 1000000 }) for (int64_t lat : { int64_t(0), int64_t(10000000) }) for (int cap : { 0, 1501, 4000 })
-		r.push_back(Route{ { QCfg{ bw, lat, cap }, QCfg{ bw, lat, cap } }, false });
-	r.push_back(Route{ { QCfg{ 1000000000, 1000, 0 }, QCfg{ 1000000, 10000000, 3000 } }, false });
-	r.push_back(Route{ { QCfg{ 1000000, 10000000, 3000 }, QCfg{ 1000000000, 1000, 0 } }, false });
-	r.push_back(Route{ { QCfg{ 1000000, 0, 4000 }, QCfg{ 1000, 1000, 1501 }, QCfg{ 0, 10000000, 50 } }, false });
-	r.push_back(Route{ { QCfg{ 0, 0, 0 }, QCfg{ 1000000, 10000000, 1501 }, QCfg{ 1000000, 10000000, 1501 } }, false });
+		r.push_back(Route{ { QCfg{ bw, lat, cap }, QCfg{ bw, lat, cap } }, 0 });
+	r.push_back(Route{ { QCfg{ 1000000000, 1000, 0 }, QCfg{ 1000000, 10000000, 3000 } }, 0 });
+	r.push_back(Route{ { QCfg{ 1000000, 10000000, 3000 }, QCfg{ 1000000000, 1000, 0 } }, 0 });
+	r.push_back(Route{ { QCfg{ 1000000, 0, 4000 }, QCfg{ 1000, 1000, 1501 }, QCfg{ 0, 10000000, 50 } }, 0 });
+	r.push_back(Route{ { QCfg{ 0, 0, 0 }, QCfg{ 1000000, 10000000, 1501 }, QCfg{ 1000000, 10000000, 1501 } }, 0 });
 	(void)thorough;
 	return r;
 }
@@ -94,7 +98,7 @@ struct Exec
 				&& p.from.port() == 1000 + id % 7;
 			return ok;
 		};
-		bool in_drop_expected = false; int drop_expected_id = -1; int64_t drop_expected_t = 0;
+		bool in_drop_expected = false; int drop_expected_id = -1; int64_t drop_expected_t = 0; uint64_t n_original = 0;
 		for (size_t h = 0; h <= H; ++h) {
 			taps[h] = std::make_shared<Tap>();
 			taps[h]->on = [&, h](packet const& p) {
@@ -147,16 +151,31 @@ struct Exec
 		term->on = [&](packet p) {
 			if (!route.reflect) return;
 			if (p.type != packet::type_t::payload) return;
-			// synchronous reply through the same queue (what a TCP socket does with its ACK on a shared link)
-			packet a; a.type = packet::type_t::ack; a.overhead = 20; a.seq_nr = info.size();
-			a.from = ip::udp::endpoint(addr("10.0.0.1"), (unsigned short)(1000 + int(info.size()) % 7));
-			info.push_back(PInfo{ 3, 20, fnv("", 0), true });
-			a.hops = build_route();
-			sim::forward_packet(std::move(a));
+			if (p.seq_nr >= n_original) return; // replies are not answered again
+			// synchronous reply through the same queue (what a socket at the end of a shared link does)
+			if (route.reflect == 1) {
+				packet a; a.type = packet::type_t::ack; a.overhead = 20; a.seq_nr = info.size();
+				a.from = ip::udp::endpoint(addr("10.0.0.1"), (unsigned short)(1000 + int(info.size()) % 7));
+				info.push_back(PInfo{ 3, 20, fnv("", 0), true });
+				a.hops = build_route();
+				sim::forward_packet(std::move(a));
+			} else {
+				// a droppable data packet (kind 1: 100+28 bytes) with a drop callback
+				size_t id = info.size(); Kind const& k = KINDS[1];
+				std::string body(size_t(k.payload), char('r')); for (size_t j = 0; j < body.size(); ++j) body[j] = char(body[j] + j % 11);
+				info.push_back(PInfo{ 1, k.payload + k.overhead, fnv(body), false });
+				packet a; a.type = k.type; a.overhead = k.overhead; a.seq_nr = id; a.buffer.assign(body.begin(), body.end());
+				a.from = ip::udp::endpoint(addr("10.0.0.1"), (unsigned short)(1000 + int(id) % 7));
+				a.drop_fun = [&, id](packet q) { int64_t t = now_ns(); cb_count[int(id)]++; ++R.cb; trace += fmt("cb:%zu@%lld ", id, (long long)t);
+					if (!intact(q, int(id))) R.fails10.push_back(fmt("drop_callback: packet %zu was not handed back intact", id));
+					if (!(in_drop_expected && drop_expected_id == int(id) && drop_expected_t == t)) R.fails10.push_back(fmt("drop_callback: callback for packet %zu at %lld does not coincide with an arrival the model drops", id, (long long)t)); };
+				a.hops = build_route();
+				sim::forward_packet(std::move(a));
+			}
 		};
 		// arrivals
 		std::vector<std::unique_ptr<asio::high_resolution_timer>> timers;
-		size_t const n = kinds.size();
+		size_t const n = kinds.size(); n_original = n;
 		for (size_t i = 0; i < n; ++i) info.push_back(PInfo{ kinds[i], KINDS[kinds[i]].payload + KINDS[kinds[i]].overhead, 0, false });
 		for (size_t i = 0; i < n; ++i) {
 			Kind const& k = KINDS[kinds[i]];
@@ -221,7 +240,7 @@ std::string route_str(Route const& r)
 {
 	std::string s;
 	for (auto& q : r.q) s += fmt("[bw=%d lat=%lldns cap=%d]", q.bw, (long long)q.lat, q.cap);
-	if (r.reflect) s += "+reflect";
+	if (r.reflect) s += r.reflect == 1 ? "+ack-reply" : "+data-reply";
 	return s;
 }
 
